@@ -27,6 +27,6 @@ CFG = {
     "lean_files": ["SuccinctlyVerif/Props/C26.lean"],
     "generated": [],
     "canon": _canon,
-    "rule": "request = one tree (12 generated sub-trees) in three renderings x one program applied to every sub-tree",
+    "rule": "request = one tree (24 generated sub-trees) in three renderings x five programs applied to every sub-tree (3 CLI runs)",
     "explanation": "yq -o json output (exit code + stdout) identical for JSON, block YAML and flow YAML input of the same tree",
 }
